@@ -174,10 +174,12 @@ class Gen:
         kind = kinds[H.hole(L + ".kind", len(kinds) - 1)]
         base_flag = ("pool", 1) if (cfg.focus == "C10" and k == len(cfg.stmts) - 1) else None
         if kind == "call":
-            names = ["f", "g", "f2"] if cfg.focus != "C20" else ["f", "h", "f2"]
+            # (innerf: an outer node whose id merely starts with the name of the nested DAGs)
+            names = (["f", "g", "f2"] if cfg.focus != "C20" else ["f", "h", "f2"]) + ["innerf"]
             name = names[H.hole(L + ".fn", len(names) - 1)]
             a0 = self.ref(L + ".a0", ("pool", last), [("pool", 0), ("const", 3), ("const", None), ("idx", last, 0), ("idx", last, "k"), ("idx", last, (0, 1))])
-            a1 = self.ref(L + ".a1", None, [("pool", 0), ("pool", last), ("const", 3), ("idx", last, 0)])
+            # (1 and True are equal and hash alike, yet they are different constants)
+            a1 = self.ref(L + ".a1", None, [("pool", 0), ("pool", last), ("const", 3), ("idx", last, 0), ("const", 1), ("const", True)])
             args = [a0] + ([a1] if a1 is not None else [])
             kwlast = bool(H.hole(L + ".kw", 1))
             # reserved keyword arguments given at the call site: a tag (no effect on values) or an unpacking count
@@ -275,7 +277,7 @@ def build_inner(c: Ctx, M: Mode, H: Holes, name: str, depth: int) -> None:
     if nested:
         build_inner(c, M, H, name + "_in", depth - 1)
     # the node inside the nested DAG: argument form and an activation flag of its own
-    argform = ("pos", "kw", "idx", "kwidx")[H.hole(name + ".argform", 3)]
+    argform = ("pos", "kw", "idx", "kwidx", "idx2")[H.hole(name + ".argform", 4)]  # idx2: two parts of one value, h(p[1], p[0])
     dflt = (1, None, SENTINEL)[H.hole(name + ".default", 2)]  # default value of the defaulted parameters (SENTINEL: identity matters)
     with_debug = bool(H.hole(name + ".debugnode", 1))  # a debug node inside the nested DAG (RUN_DEBUG_NODES is on for the run)
     if with_debug:
@@ -292,6 +294,8 @@ def build_inner(c: Ctx, M: Mode, H: Holes, name: str, depth: int) -> None:
             args[-1] = args[-1][0]
         elif argform == "kwidx":
             kw["k"] = args.pop()["k"]
+        elif argform == "idx2":
+            args = [p[1], p[0]] + args[1:]
         flag = NOFLAG if ownflag is None else (p if ownflag == "p" else (p[0] if ownflag == "pidx" else False))
         u = M.call(hname, args, kw, flag)
         if with_debug:
@@ -341,15 +345,17 @@ def run_dataflow(cfg: DCfg, c: Ctx) -> Any:
     res = {"m": Resource.main_thread, "t": Resource.thread, "a": Resource.async_thread}
     resource = res[cfg.resources[H.hole("res", len(cfg.resources) - 1)]]
     flavour = cfg.flavours[H.hole("flavour", len(cfg.flavours) - 1)]
-    for name, unpack in (("f", None), ("g", None), ("h", None), ("f2", 2), ("hd", None), ("hq", None)):
+    for name, unpack in (("f", None), ("g", None), ("h", None), ("f2", 2), ("hd", None), ("hq", None), ("innerf", None)):
         plain = term_fn(name, cnt)
         if name == "hq":
             plain.__qualname__ = "Owner.hq"
         M.fn[name] = (plain, xn(plain, unpack_to=unpack, resource=resource, debug=(name == "hd")), unpack)
     g = Gen(c, cfg, M, H, cnt)
     # ---- draw the program
-    supplied_b = bool(H.hole("supply_b", 1))
+    supply_b = H.hole("supply_b", 2)  # the defaulted DAG parameter: omitted / a symbolic value / an explicit None
+    supplied_b = bool(supply_b)
     b_default = (11, 0, None)[H.hole("b_default", 2)]  # default of the DAG's second parameter (a falsy default is still only a default)
+    prelude = bool(H.hole("prelude", 1))  # a first node whose id starts with the nested DAGs' name; its result is not used
     npool = 2
     stmts = []
     for k in range(len(cfg.stmts)):
@@ -365,12 +371,14 @@ def run_dataflow(cfg: DCfg, c: Ctx) -> Any:
             npool += 1 if sh[0] == "single" else 2
     ret = g.draw_ret(npool)
     c.heavy()
-    spec = {"stmts": stmts, "ret": ret, "supplied_b": supplied_b, "flavour": flavour, "deviations": list(H.log),
+    spec = {"stmts": stmts, "ret": ret, "supplied_b": supplied_b, "prelude": prelude, "flavour": flavour, "deviations": list(H.log),
             "inner": {k: (v[2], v[3]) for k, v in M.dags.items()}}
 
     def describe(a, b=b_default):  # type: ignore[no-untyped-def]
         pool = [a, b]
         g.last_sub = NOFLAG
+        if prelude:
+            M.call("innerf", [a], {})
         for st in stmts:
             g.exec_stmt(st, pool)
         return g.exec_ret(ret, pool)
@@ -390,7 +398,7 @@ def run_dataflow(cfg: DCfg, c: Ctx) -> Any:
     saved_debug = twz_cfg.RUN_DEBUG_NODES
     twz_cfg.RUN_DEBUG_NODES = bool(M.debug_used)
     A, B = c.val("a"), c.val("b")
-    call_args = (A, B) if supplied_b else (A,)
+    call_args = ((A, B) if supply_b == 1 else (A, None)) if supplied_b else (A,)
     got: Tuple[str, Any]
     cnt.reset()
     if build_exc is None:
